@@ -440,7 +440,11 @@ func (r *TransRun) startCall(k int, addr string, withCtx bool) {
 		if err == nil && (c.reply.Addr != addr || c.reply.ID != id) {
 			right = 0
 		}
-		r.add(&Ev{Ev: "api.ret", C: k, A: kind, B: right, Seq: -1, Sent: -1, S: id})
+		fk := form
+		if c.dctx != nil {
+			fk = "ctx"
+		}
+		r.add(&Ev{Ev: "api.ret", C: k, A: kind, B: right, K: fk, Seq: -1, Sent: -1, S: id})
 		close(c.done)
 	}()
 	<-ready
